@@ -61,15 +61,52 @@ pub fn operand_def(name: &str, kind: &str, o: &str, tilde: bool) -> String {
   }
 }
 
+/// an operand written in place (a typed literal or a matrix literal of typed literals); `None` when the
+/// spelling would not denote the operand: an empty matrix has no kind of its own, and the least value of a
+/// signed kind is the negation of a literal that does not fit the kind (a matter of literals, C13)
+pub fn operand_inline(kind: &str, o: &str) -> Option<String> {
+  let p: Vec<&str> = o.split('|').collect();
+  let annot_needed = !(kind == "f64" || kind == "r64" || kind == "c64" || kind == "bool" || kind == "string");
+  let least = match kind { "i8" => "-128", "i16" => "-32768", "i32" => "-2147483648", _ => "" };
+  let el = |e: &str| -> Option<String> {
+    if e == least { return None; }
+    Some(if annot_needed { format!("{}<{}>", elem_src(kind, e), kind) } else { elem_src(kind, e) }) };
+  if p[0] == "S" {
+    let t = el(p[1])?;
+    // a negative scalar is parenthesised so that the sign belongs to the operand whatever the operator
+    Some(if t.starts_with('-') || kind == "c64" || kind == "r64" { format!("({})", t) } else { t })
+  } else {
+    let rows: usize = p[1].parse().unwrap(); let cols: usize = p[2].parse().unwrap();
+    if p[3].is_empty() { return None; }
+    let els: Vec<&str> = p[3].split(' ').collect();
+    let mut lit = String::from("[");
+    for i in 0..rows {
+      if i > 0 { lit.push_str("; "); }
+      for j in 0..cols { if j > 0 { lit.push(' '); } lit.push_str(&el(els[j * rows + i])?); }
+    }
+    lit.push(']');
+    Some(lit)
+  }
+}
+
+/// operand forms: `var` / `mut` (both operands variables, immutable or mutable) or one letter per operand:
+/// `l` written in place, `v` a variable, `m` a mutable variable
 pub fn source(case: &str) -> String {
   let f: Vec<&str> = case.split('\t').collect();
+  let form = |mode: &str, i: usize| -> char { match mode { "var" => 'v', "mut" => 'm', m => m.chars().nth(i).unwrap_or('v') } };
+  let mut defs = String::new();
+  let mut opnd = |name: &str, kind: &str, o: &str, c: char| -> String {
+    if c == 'l' { if let Some(t) = operand_inline(kind, o) { return t; } }
+    defs.push_str(&operand_def(name, kind, o, c == 'm'));
+    name.to_string() };
   if f[0] == "binop" {
     let sym = OPS.iter().find(|(n, _)| *n == f[1]).unwrap().1;
-    let tilde = f[5] == "mut";
-    format!("{}{}a {} b", operand_def("a", f[2], f[3], tilde), operand_def("b", f[2], f[4], tilde), sym)
+    let a = opnd("a", f[2], f[3], form(f[5], 0)); let b = opnd("b", f[2], f[4], form(f[5], 1));
+    format!("{}{} {} {}", defs, a, sym, b)
   } else {
     let sym = if f[1] == "neg" { "-" } else { "!" };
-    format!("{}{}a", operand_def("a", f[2], f[3], f[4] == "mut"), sym)
+    let a = opnd("a", f[2], f[3], form(f[4], 0));
+    format!("{}{}{}", defs, sym, a)
   }
 }
 
@@ -133,7 +170,8 @@ pub fn generate(seed: u64, thorough: bool, sink: &mut Sink) -> Vec<String> {
           let (rr, rcn, rs) = class_shape(rc, n2, m2);
           let lhs = gen_operand(kind, lr, lcn, ls, &mut rng, 0);
           let rhs = gen_operand(kind, rr, rcn, rs, &mut rng, 1);
-          let mode = if rng.chance(1, 4) { "mut" } else { "var" };
+          let mode = match rng.below(8) { 0 | 1 => "mut", 2 => "lv", 3 => "vl", 4 => "ll", 5 => *rng.pick(&["lm", "ml", "vm", "mv"]), _ => "var" };
+          sink.hit(&format!("operands:{}", mode));
           cases.push(format!("binop\t{}\t{}\t{}\t{}\t{}", op, kind, lhs, rhs, mode));
           sink.hit(&format!("{}:{}:{}·{}{}", op, if acc { "acc" } else { "rej" }, lc, rc, if (n2, m2) != (n, m) { ":sizemismatch" } else { "" }));
           sink.hit(&format!("kind:{}", kind));
@@ -146,7 +184,7 @@ pub fn generate(seed: u64, thorough: bool, sink: &mut Sink) -> Vec<String> {
     for kind in KINDS { for c in CLASSES {
       let (r, cn, s) = class_shape(c, 3, 2);
       let o = gen_operand(kind, r, cn, s, &mut rng, 0);
-      cases.push(format!("unop\t{}\t{}\t{}\t{}", op, kind, o, if rng.chance(1, 4) { "mut" } else { "var" }));
+      cases.push(format!("unop\t{}\t{}\t{}\t{}", op, kind, o, match rng.below(4) { 0 => "mut", 1 => "l", _ => "var" }));
       sink.hit(&format!("unop:{}:{}", op, c));
     }}
   }
